@@ -5,5 +5,6 @@ CONSTANTS
   Flavours = {"map", "set"}
   EmptyEncs = {"empty", "nil"}
   Modes = {"full", "lazy"}
+  KeyAlphabets = {"trie", "nested"}
 INVARIANTS TypeOK ObsOK
 PROPERTIES Steps
